@@ -26,6 +26,12 @@ def run(w):
                 st = chip.state
                 vals += [int(bool(st.on)), st.start_line, st.page, st.y_address, digest(b for row in chip.vram for b in row)]
             out.append(",".join(str(x) for x in vals))
+        elif p[0] == "sn":
+            # the same observation through the public snapshot API (HD61202Controller.get_snapshot)
+            vals = []
+            for chip in lcd.get_snapshot().chips:
+                vals += [int(bool(chip.on)), chip.start_line, chip.page, chip.y_address, digest(b for row in chip.vram for b in row)]
+            out.append(",".join(str(x) for x in vals))
         elif p[0] == "px":
             buf = lcd.get_display_buffer()
             out.append(str(digest(int(x) for row in buf for x in row)))
